@@ -1,0 +1,95 @@
+//go:build verif
+
+// Contracts for package ebp (C12), checked by /verif/engine (govc). Compiled only with the build
+// tag "verif".
+
+package ebp
+
+import (
+	"github.com/Comcast/gots/v2"
+)
+
+func specIf(b bool, n int) int {
+	if b {
+		return n
+	}
+	return 0
+}
+
+// Comcast EBP (tag 0xA9): tag, length L, flags, [extension flags], [SAP], [grouping id],
+// [seconds, fraction], reserved bytes up to L+2.
+func specCcExtAt(b []byte) int  { return 3 }
+func specCcSapAt(b []byte) int  { return 3 + specIf(b[2]%2 == 1, 1) }
+func specCcGrpAt(b []byte) int  { return specCcSapAt(b) + specIf((b[2]/32)%2 == 1, 1) }
+func specCcTimeAt(b []byte) int { return specCcGrpAt(b) + specIf((b[2]/16)%2 == 1, 1) }
+func specCcRsvAt(b []byte) int  { return specCcTimeAt(b) + specIf((b[2]/8)%2 == 1, 8) }
+
+// specWFComcast: a well-formed, non-empty Comcast EBP occupying the whole slice.
+func specWFComcast(b []byte) bool {
+	return len(b) >= 3 && b[0] == 0xa9 && b[1] >= 1 && len(b) == int(b[1])+2 && specCcRsvAt(b) <= len(b)
+}
+
+func specBE32(b []byte, at int) uint32 {
+	return uint32(b[at])*16777216 + uint32(b[at+1])*65536 + uint32(b[at+2])*256 + uint32(b[at+3])
+}
+
+//@ transparent baseEbp.FragmentFlag baseEbp.SegmentFlag baseEbp.SapFlag baseEbp.GroupingFlag baseEbp.TimeFlag baseEbp.ExtensionFlag
+
+//@ func readComcastEbp(data []byte) (ebp *comcastEbp, err error)
+//@   props C12
+//@   paths
+//@   requires specWFComcast(data)
+//@   ensures err == nil && ebp != nil && fresh(ebp)
+//@   ensures ebp.DataFieldTag == 0xa9 && ebp.DataFieldLength == data[1] && ebp.DataFlags == data[2]
+//@   ensures data[2]%2 == 1 ==> ebp.ExtensionFlags == data[3]
+//@   ensures data[2]%2 == 0 ==> ebp.ExtensionFlags == 0
+//@   ensures (data[2]/32)%2 == 1 ==> ebp.SapType == data[specCcSapAt(data)]
+//@   ensures (data[2]/32)%2 == 0 ==> ebp.SapType == 0
+//@   ensures (data[2]/16)%2 == 1 ==> len(ebp.Grouping) == 1 && ebp.Grouping[0] == data[specCcGrpAt(data)]
+//@   ensures (data[2]/16)%2 == 0 ==> len(ebp.Grouping) == 0
+//@   ensures (data[2]/8)%2 == 1 ==> ebp.TimeSeconds == specBE32(data, specCcTimeAt(data)) && ebp.TimeFraction == specBE32(data, specCcTimeAt(data)+4)
+//@   ensures (data[2]/8)%2 == 0 ==> ebp.TimeSeconds == 0 && ebp.TimeFraction == 0
+//@   ensures len(ebp.ReservedBytes) == len(data)-specCcRsvAt(data) && (len(ebp.ReservedBytes) > 0 ==> &ebp.ReservedBytes[0] == &data[specCcRsvAt(data)])
+//@   modifies nothing
+
+// ---- flags and values shared by both flavours
+
+//@ func (ebp *baseEbp) IsEmpty() bool
+//@   props C12
+//@   requires ebp != nil
+//@   ensures result == (ebp.DataFieldLength == 0)
+//@   modifies nothing
+
+//@ func (ebp *baseEbp) Sap() byte
+//@   props C12
+//@   requires ebp != nil
+//@   ensures result == ebp.SapType
+//@   modifies nothing
+
+//@ func (ebp *comcastEbp) EBPType() byte
+//@   props C12
+//@   requires ebp != nil
+//@   ensures result == ebp.DataFieldTag
+//@   modifies nothing
+
+//@ func (ebp *comcastEbp) DiscontinuityFlag() bool
+//@   props C12
+//@   requires ebp != nil
+//@   ensures result == (ebp.DataFieldLength != 0 && (ebp.DataFlags/4)%2 == 1)
+//@   modifies nothing
+
+// the stream-sync signal is the first grouping id equal to 0x1C/0x1D, else 0xFF
+//@ func (ebp *baseEbp) StreamSyncSignal() uint8
+//@   props C12
+//@   requires ebp != nil
+//@   ensures (forall k in 0..len(ebp.Grouping) :: ebp.Grouping[k] != 0x1c && ebp.Grouping[k] != 0x1d) ==> result == 0xff
+//@   ensures len(ebp.Grouping) >= 1 && (ebp.Grouping[0] == 0x1c || ebp.Grouping[0] == 0x1d) ==> result == ebp.Grouping[0]
+//@   ensures result == 0xff || result == 0x1c || result == 0x1d
+//@   ensures forall k in 0..len(ebp.Grouping) :: (ebp.Grouping[k] == 0x1c || ebp.Grouping[k] == 0x1d) && (forall j in 0..k :: ebp.Grouping[j] != 0x1c && ebp.Grouping[j] != 0x1d) ==> result == ebp.Grouping[k]
+//@   modifies nothing
+//@   loop 1 (rangeindex int)
+//@     invariant -1 <= rangeindex && rangeindex < len(ebp.Grouping)
+//@     invariant forall j in 0..rangeindex+1 :: ebp.Grouping[j] != 0x1c && ebp.Grouping[j] != 0x1d
+//@     decreases len(ebp.Grouping) - rangeindex
+
+var _ = gots.ErrNoPayload
